@@ -106,6 +106,20 @@ class Canon(ast.NodeTransformer):
 # statement-level desugaring (needs the module's literal tables)
 # ----------------------------------------------------------------------------------------------
 
+def _pure_cell(c: ast.AST) -> bool:
+    if isinstance(c, (ast.Constant, ast.Name, ast.Lambda)):
+        return True
+    if isinstance(c, ast.Attribute):
+        return _pure_cell(c.value)
+    if isinstance(c, ast.BoolOp):
+        return all(_pure_cell(v) for v in c.values)
+    if isinstance(c, ast.UnaryOp) and isinstance(c.op, ast.Not):
+        return _pure_cell(c.operand)
+    if isinstance(c, ast.Compare):
+        return _pure_cell(c.left) and all(_pure_cell(x) for x in c.comparators)
+    return False
+
+
 def _literal_table(v: ast.AST) -> Optional[List[List[ast.AST]]]:
     """Rows of a literal tuple/list of equally long tuples whose cells are constants, names, attributes or lambdas."""
     if not isinstance(v, (ast.Tuple, ast.List)) or not v.elts or len(v.elts) > 24:
@@ -114,7 +128,7 @@ def _literal_table(v: ast.AST) -> Optional[List[List[ast.AST]]]:
     for e in v.elts:
         if not isinstance(e, (ast.Tuple, ast.List)) or not e.elts:
             return None
-        if not all(isinstance(c, (ast.Constant, ast.Name, ast.Attribute, ast.Lambda)) for c in e.elts):
+        if not all(_pure_cell(c) for c in e.elts):
             return None
         rows.append(list(e.elts))
     if len({len(r) for r in rows}) != 1:
@@ -178,6 +192,34 @@ class Desugar(ast.NodeTransformer):
                                 out.append(nb)
                         i += 1
                         continue
+            # D3b: X.extend(E for a, b in TABLE if C)  ->  per row: if C: X.append(E)
+            if isinstance(st, ast.Expr) and isinstance(st.value, ast.Call) and isinstance(st.value.func, ast.Attribute) and st.value.func.attr == 'extend' \
+                    and len(st.value.args) == 1 and isinstance(st.value.args[0], (ast.GeneratorExp, ast.ListComp)) and len(st.value.args[0].generators) == 1:
+                ge = st.value.args[0]
+                g = ge.generators[0]
+                rows = None
+                if isinstance(g.iter, ast.Name):
+                    rows = local_tables.get(g.iter.id) or self.tables.get(g.iter.id)
+                elif isinstance(g.iter, (ast.Tuple, ast.List)):
+                    rows = _literal_table(g.iter)
+                names = [t.id for t in g.target.elts] if isinstance(g.target, ast.Tuple) and all(isinstance(t, ast.Name) for t in g.target.elts) else None
+                if rows is not None and names and len(names) == len(rows[0]):
+                    for row in rows:
+                        m = dict(zip(names, row))
+                        app = ast.Expr(value=ast.Call(func=ast.Attribute(value=copy.deepcopy(st.value.func.value), attr='append', ctx=ast.Load()),
+                                                      args=[_Subst(m).visit(copy.deepcopy(ge.elt))], keywords=[]))
+                        node: ast.stmt = app
+                        if g.ifs:
+                            test = None
+                            for c in g.ifs:
+                                cc = _Subst(m).visit(copy.deepcopy(c))
+                                test = cc if test is None else ast.BoolOp(op=ast.And(), values=[test, cc])
+                            node = ast.If(test=test, body=[app], orelse=[])
+                        for x in ast.walk(node):
+                            ast.copy_location(x, st)
+                        out.append(node)
+                    i += 1
+                    continue
             # D1: v = next((E for T in C if P), None) ; if v is None: RAISE   ->  for T in C: if P: v = E; break  else: RAISE
             if isinstance(st, ast.Assign) and len(st.targets) == 1 and isinstance(st.targets[0], ast.Name) and isinstance(st.value, ast.Call) \
                     and isinstance(st.value.func, ast.Name) and st.value.func.id == 'next' and len(st.value.args) == 2 \
@@ -261,6 +303,10 @@ def desugar(tree: ast.Module) -> ast.Module:
             rows = _literal_table(st.value)
             if rows is not None:
                 tables[st.targets[0].id] = rows
+        if isinstance(st, ast.AnnAssign) and isinstance(st.target, ast.Name) and st.value is not None:
+            rows = _literal_table(st.value)
+            if rows is not None:
+                tables[st.target.id] = rows
         if isinstance(st, ast.ClassDef):
             for s2 in st.body:
                 if isinstance(s2, ast.Assign) and len(s2.targets) == 1 and isinstance(s2.targets[0], ast.Name):
